@@ -81,6 +81,10 @@ pub(crate) fn create_codec_bitround(metadata: &MetadataV3) -> Result<Codec, Plug
 fn round_bits8(mut input: u8, keepbits: u32, maxbits: u32) -> u8 {
     if keepbits < maxbits {
         let maskbits = maxbits - keepbits;
+        if maskbits >= u8::BITS {
+            // No bits of a value with its top bit set are kept (the shifts below would overflow)
+            return 0;
+        }
         let all_set = u8::MAX;
         let mask = (all_set >> maskbits) << maskbits;
         let half_quantum1 = (1 << (maskbits - 1)) - 1;
@@ -92,6 +96,10 @@ fn round_bits8(mut input: u8, keepbits: u32, maxbits: u32) -> u8 {
 const fn round_bits16(mut input: u16, keepbits: u32, maxbits: u32) -> u16 {
     if keepbits < maxbits {
         let maskbits = maxbits - keepbits;
+        if maskbits >= u16::BITS {
+            // No bits of a value with its top bit set are kept (the shifts below would overflow)
+            return 0;
+        }
         let all_set = u16::MAX;
         let mask = (all_set >> maskbits) << maskbits;
         let half_quantum1 = (1 << (maskbits - 1)) - 1;
@@ -103,6 +111,10 @@ const fn round_bits16(mut input: u16, keepbits: u32, maxbits: u32) -> u16 {
 const fn round_bits32(mut input: u32, keepbits: u32, maxbits: u32) -> u32 {
     if keepbits < maxbits {
         let maskbits = maxbits - keepbits;
+        if maskbits >= u32::BITS {
+            // No bits of a value with its top bit set are kept (the shifts below would overflow)
+            return 0;
+        }
         let all_set = u32::MAX;
         let mask = (all_set >> maskbits) << maskbits;
         let half_quantum1 = (1 << (maskbits - 1)) - 1;
@@ -114,6 +126,10 @@ const fn round_bits32(mut input: u32, keepbits: u32, maxbits: u32) -> u32 {
 const fn round_bits64(mut input: u64, keepbits: u32, maxbits: u32) -> u64 {
     if keepbits < maxbits {
         let maskbits = maxbits - keepbits;
+        if maskbits >= u64::BITS {
+            // No bits of a value with its top bit set are kept (the shifts below would overflow)
+            return 0;
+        }
         let all_set = u64::MAX;
         let mask = (all_set >> maskbits) << maskbits;
         let half_quantum1 = (1 << (maskbits - 1)) - 1;
